@@ -1,3 +1,57 @@
-import PGM.Model.GM
+import PGM.Proofs.VECorrect
+/-!
+# C02 — every query path answers from one and the same joint distribution
+
+Theorems about `PGM/Model/GM.lean` (transcription of `graphical_model.py`'s `project`,
+`variable_elimination(_logspace)`), over any linearly ordered field `K`; `Sem.joint`, `Sem.partition`,
+`Sem.marginal` are the explicit joint distribution of the specification (`PGM/Proofs/Semantics.lean`).
+-/
 namespace PGM.C02
+open PGM PGM.JT PGM.GM PGM.Sem
+variable {K : Type} [Field K] [LinearOrder K] [IsStrictOrderedRing K]
+
+/-- **variable elimination computes the sum-product**, for any factor list and *any* duplicate-free
+elimination order — so the answer does not depend on the order `greedy_order` picks -/
+theorem ve_correct (d : Dom) (fs : List (Factor (PlainOf K))) (elim : List Attr) (σ : Attr → Nat)
+    (hd : d.WF) (hfs : FactorsOK d fs) (hpre : preVE fs elim = true) (hnd : elim.Nodup)
+    (hsub : ∀ a ∈ elim, a ∈ d.attrs) (hσ : d.Valid σ) :
+    ((variableElimination fs elim).sem σ).v
+      = sumOver d elim σ (fun τ => (fs.map (fun f => (f.sem τ).v)).prod) ∧
+    (∀ a, a ∈ (variableElimination fs elim).dom.attrs ↔ (a ∉ elim ∧ ∃ f ∈ fs, a ∈ f.dom.attrs)) :=
+  Sem.ve_correct d fs elim σ hd hfs hpre hnd hsub hσ
+
+theorem veLogspace_correct (d : Dom) (fs : List (Factor (LogOf K))) (elim : List Attr)
+    (total : LogOf K) (σ : Attr → Nat)
+    (hd : d.WF) (hfs : FactorsOK d fs) (hpre : preVE fs elim = true) (hnd : elim.Nodup)
+    (hsub : ∀ a ∈ elim, a ∈ d.attrs) (hcover : ∀ a ∈ d.attrs, ∃ f ∈ fs, a ∈ f.dom.attrs) (hσ : d.Valid σ)
+    (hZ : sumOver d d.attrs (fun _ => 0) (fun τ => (fs.map (fun f => (f.sem τ).v)).prod) ≠ 0) :
+    ((veLogspace fs elim total).sem σ).v
+      = total.v * sumOver d elim σ (fun τ => (fs.map (fun f => (f.sem τ).v)).prod)
+        / sumOver d d.attrs (fun _ => 0) (fun τ => (fs.map (fun f => (f.sem τ).v)).prod) :=
+  Sem.veLogspace_correct d fs elim total σ hd hfs hpre hnd hsub hcover hσ hZ
+
+/-- **`project` (no cache)**: the answer for any duplicate-free attribute tuple, in any order,
+including empty and full, is `total · marginal / Z` laid out in the requested order -/
+theorem project_correct (d : Dom) (pots : CliqueVec (LogOf K)) (total : LogOf K) (attrs : List Attr)
+    (σ : Attr → Nat) (hd : d.WF) (hfs : FactorsOK d (pots.map Prod.snd))
+    (hne : pots ≠ []) (hcover : ∀ a ∈ d.attrs, ∃ p ∈ pots, a ∈ p.2.dom.attrs)
+    (hnd : attrs.Nodup) (hsub : ∀ a ∈ attrs, a ∈ d.attrs) (hσ : d.Valid σ)
+    (hZ : partition d pots ≠ 0) :
+    (GMproject d pots total attrs).dom.attrs = attrs ∧
+    ((GMproject d pots total attrs).sem σ).v = total.v * marginal d pots attrs σ / partition d pots :=
+  Sem.project_correct d pots total attrs σ hd hfs hne hcover hnd hsub hσ hZ
+
+/-- every answer sums to the model total -/
+theorem project_sums_to_total (d : Dom) (pots : CliqueVec (LogOf K)) (total : LogOf K) (attrs : List Attr)
+    (hd : d.WF) (hnd : attrs.Nodup) (hsub : ∀ a ∈ attrs, a ∈ d.attrs) (hZ : partition d pots ≠ 0) :
+    sumOver d attrs (fun _ => 0) (fun σ => total.v * marginal d pots attrs σ / partition d pots) = total.v :=
+  Sem.project_sums_to_total d pots total attrs hd hnd hsub hZ
+
+/-- any two answers agree on the attributes they share -/
+theorem marginal_consistent (d : Dom) (pots : CliqueVec (LogOf K)) (as bs : List Attr) (σ : Attr → Nat)
+    (hd : d.WF) (has : as.Nodup) (hbs : bs.Nodup) (hsub : ∀ a ∈ as, a ∈ d.attrs) (hbsub : ∀ b ∈ bs, b ∈ as)
+    (hσ : d.Valid σ) :
+    sumOver d (as.filter (fun a => !bs.contains a)) σ (marginal d pots as) = marginal d pots bs σ :=
+  Sem.marginal_consistent d pots as bs σ hd has hbs hsub hbsub hσ
+
 end PGM.C02
